@@ -80,7 +80,7 @@ PROPS = {
     'C12': dict(verus=['iter_bw', 'ctor_bw', 'utf8', 'iter_cw', 'ctor_cw'], kani=['utf8_decoder_two_chars'], bounded=True,
                 chain='laziness postconditions of the three standard iterators, both variants (P): m.end == bytes pulled, source drained on None, pulls only via Enumerate::next; decoder pulls exactly the bytes of one character (P+K)', assumed=['byte-wise: find_iter(h) is find_iter_from_iter over U8SliceIterator, whose remaining() == h (P: ctor_bw); char-wise: the str entry points build the same iterators over StrIterator, whose remaining() == the bytes of the str (P: ctor_cw)', 'caller-supplied iterators obey vstd prophetic iterator laws (finite, deterministic)']),
     'C13': dict(verus=['search_bw', 'iter_bw', 'build_bw', 'link_bw', 'wrap_bw', 'search_cw', 'utf8', 'iter_cw', 'build_cw', 'link_cw', 'wrap_cw', 'ctor_bw', 'ctor_cw', 'lm_cw'], kani=[], bounded=True,
-                chain='decreases rank in the transition loops, decreases |rest| in scanning loops (P); the ranking exists: NFA depth through idmap (P: link_bw, link_cw) given fail links point to shallower states (nfa_links, B); 2n bound: B',
+                chain='decreases rank in the transition loops, decreases |rest| in scanning loops (P); the ranking exists: NFA depth through idmap (P: link_bw, link_cw) given fail links point to shallower states (nfa_links, B); 2n bound: each call of next_state_id_unchecked makes exactly bw_fsteps / cw_fsteps fail moves (P: ghost counter asserted at every return, search_bw / search_cw), and fail moves + goto moves over a scan of n symbols from the root are at most 2n (P: lemma_moves_from_root, lemma_cw_moves_from_root; potential = state depth); the iterators call it once per symbol (their refinement contracts); the stand-in counts transitions independently',
                 assumed=[NFA_ASSUMED, DA_ASSUMED]),
     'C15': dict(verus=['nfa_add', 'wrap_bw', 'wrap_cw'], kani=[], bounded=True,
                 chain='every trie state >= 2 is walk(prefix) of a non-empty prefix of a registered pattern (P: nfa_add reach_ok), distinct label sequences reach distinct states and every prefix of a registered pattern has a state (P: lemma_walk_inj, lemma_prefix_has_state), shadowed patterns add no state (P: nfa_add); byte-wise build_with_values sets num_states = trie states - 1 and the array has at least as many elements as the trie has states (P: wrap_bw, wrap_cw, injective placement); heap_bytes arithmetic and the numeric count: B',
